@@ -146,7 +146,7 @@ def purity(an: Analysis, rep, rule: str, entries, versions=((3, 10),)):
                             f"identity the library must preserve (1 / 1.0 / True, 0.0 / -0.0; code objects compare equal regardless of file name and line table) and "
                             f"hands out one object to unrelated callers", config=entry)
             for m in it.mutations:
-                bad = [a for a in m["targets"] if (a[0] == "obj" and a[2] == MODULE_CTX) or a[0] in ("class", "module")]
+                bad = [a for a in m["targets"] if (a[0] == "obj" and a[2] == MODULE_CTX) or a[0] in ("class", "module", "ext")]
                 if bad:
                     node = it.node_index[m["node"]]
                     mod = an.prog.module(m["module"])
